@@ -181,7 +181,42 @@ def check(case, ctx):
     ctx.nt(len(occupied) >= 2 and len(set(pops)) >= 2 and (len(occupied) < nblocks or weights is not None))
 
 
+def check_large(case, ctx):
+    """tens of thousands of points: every block's mean / sum / weighted average against numpy.bincount on floor-division labels"""
+    e, n, labels, region, spacing = blocks.big_cloud(case)
+    inside = (e > region[0]) & (e < region[1]) & (n > region[2]) & (n < region[3])
+    e, n, labels = e[inside], n[inside], labels[inside]  # outside points would join the border blocks: kept out so that the centres stay meaningful
+    if e.size == 0:
+        ctx.skip("no_points_inside")
+    rng = np.random.RandomState(case["seed"] + 1)
+    data = np.round(rng.uniform(-100, 100, e.size) * 64) / 64 + np.where(labels % 2 == 0, 1e3, -5e2)
+    w = np.round(rng.uniform(0.25, 4, e.size) * 16) / 16
+    kw = dict(spacing=spacing) if case["by"] == "spacing" else dict(shape=(case["nb_n"], case["nb_e"]))
+    nb = case["nb_n"] * case["nb_e"]
+    cnt = np.bincount(labels, minlength=nb)
+    occ = np.nonzero(cnt)[0]
+    for name, red, weights, exp in (("mean", np.mean, None, np.bincount(labels, data, nb)[occ] / cnt[occ]),
+                                    ("sum", np.sum, None, np.bincount(labels, data, nb)[occ]),
+                                    ("average", np.average, w, np.bincount(labels, data * w, nb)[occ] / np.bincount(labels, w, nb)[occ])):
+        reducer = vd.BlockReduce(red, region=region, center_coordinates=True, **kw)
+        (be, bn), got = reducer.filter((e, n), data) if weights is None else reducer.filter((e, n), data, weights)
+        got = np.asarray(got)
+        ctx.check(got.shape == occ.shape, "%s: %d values for %d non-empty blocks", name, got.size, occ.size)
+        scale = np.maximum(np.abs(exp), 1.0) * (cnt[occ] if name == "sum" else 1)
+        bad = np.abs(got - exp) > 1e-11 * scale
+        if bad.any():
+            k = int(np.argmax(bad))
+            raise Violation("%s over %d points: block %d (%d members) gives %r, bincount gives %r" % (name, e.size, int(occ[k]), int(cnt[occ][k]), float(got[k]), float(exp[k])))
+        ce = region[0] + (occ % case["nb_e"] + 0.5) * case["dx"]
+        cn = region[2] + (occ // case["nb_e"] + 0.5) * case["dy"]
+        ctx.check(np.array_equal(np.asarray(be), ce) and np.array_equal(np.asarray(bn), cn), "%s: block centres are not those of the non-empty blocks in ascending order", name)
+    ctx.label("n%d" % e.size, case["by"])
+    ctx.nt(occ.size >= 4)
+
+
 SUBCHECKS = [
     Sub("block_reduce", check, strategy=cases(), quick=400, thorough=2500, shards_quick=4,
         doc="BlockReduce.filter vs brute-force reduction over membership known by construction (values, own weights, coordinates, centres, extra coords, order)"),
+    Sub("large", check_large, strategy=blocks.big_cases, quick=8, thorough=40,
+        doc="20 000 - 120 000 points, up to 1 600 blocks: mean, sum and weighted average per block against numpy.bincount"),
 ]
